@@ -752,9 +752,14 @@ class CodeGen:
                 yield from origin_bubble.value.set(asm.State(self.ap))
                 static_size = self.array_size(el_type, length)
                 # We must advance ap before, not after we write values
-                # It should be fine not to update self.stack yet though.
+                # The array itself is only added to self.stack once its
+                # values are written (create_new_stack_array), but the
+                # space it takes has already been taken from the frame:
+                # temporaries and calls in the element expressions must
+                # be counted on top of it by the overflow checks.
                 yield asm.Metadata('Array allocation (ArrayLiteral)')
                 yield asm.Add(self.ap, asm.State(self.ap), asm.IntLiteral(static_size))
+                self.stack = self.stack.add(static_array_size=static_size)
                 if el_type == DataType.BOOL:
                     foundation = self.pack_bools([
                         isinstance(el_expr, ast.BoolValue) and el_expr.data
@@ -802,6 +807,7 @@ class CodeGen:
                         offset += stride
                     assert offset == 0
 
+                self.stack = self.stack.add(static_array_size=-static_size)
                 access_mode = AccessMode.R if expr.type.const else AccessMode.RW
                 return self.create_new_stack_array(
                     ConcreteArrayType(expr.type.el_type, access_mode),
